@@ -93,9 +93,55 @@ func runAppTest(c *child.Ctx, app string, cases []appCase) (map[int]appObs, stri
 		c.Count("executor_runs_with_hook_profile", 1)
 	}
 	var log bytes.Buffer
-	cmd.Stdout = &log
-	cmd.Stderr = &log
-	err := cmd.Run()
+	logPath := filepath.Join(dir, "executor.log")
+	lf, _ := os.Create(logPath)
+	cmd.Stdout = lf
+	cmd.Stderr = lf
+	err := cmd.Start()
+	hung := ""
+	if err == nil {
+		// watchdog on progress: the executor rewrites its progress marker before every
+		// case and appends an observation after it; if neither changes for a long time
+		// the runtime is asked for a goroutine dump and the verdict is logical
+		waited := make(chan error, 1)
+		go func() { waited <- cmd.Wait() }()
+		lastChange := time.Now()
+		var lastSize, lastMark int64 = -1, -1
+	wait:
+		for {
+			select {
+			case err = <-waited:
+				break wait
+			case <-time.After(time.Second):
+			}
+			tick()
+			var sz, mk int64
+			if st, e := os.Stat(outPath); e == nil {
+				sz = st.Size()
+			}
+			if st, e := os.Stat(outPath + ".current"); e == nil {
+				mk = st.ModTime().UnixNano()
+			}
+			if sz != lastSize || mk != lastMark {
+				lastSize, lastMark, lastChange = sz, mk, time.Now()
+			}
+			if time.Since(lastChange) > 75*time.Second {
+				cmd.Process.Signal(syscall.SIGQUIT)
+				select {
+				case err = <-waited:
+				case <-time.After(10 * time.Second):
+					cmd.Process.Kill()
+					err = <-waited
+				}
+				hung = "no case finished and none started for 75 s"
+				break wait
+			}
+		}
+	}
+	lf.Close()
+	if b, e := os.ReadFile(logPath); e == nil {
+		log.Write(b)
+	}
 	obs := map[int]appObs{}
 	if b, e := os.ReadFile(outPath); e == nil {
 		sc := bufio.NewScanner(bytes.NewReader(b))
@@ -109,8 +155,45 @@ func runAppTest(c *child.Ctx, app string, cases []appCase) (map[int]appObs, stri
 	}
 	fail := ""
 	var cur *appCase
+	if hung != "" {
+		// logical verdict from the dump: every goroutine with a frame in the
+		// application's or the pipeline's source is parked => nothing can make progress
+		dump := log.String()
+		if i := strings.LastIndex(dump, "SIGQUIT"); i >= 0 {
+			dump = dump[i:]
+		}
+		parkedAll, found := true, 0
+		for _, g := range strings.Split(dump, "\n\n") {
+			if !strings.Contains(g, "/apps/") && !strings.Contains(g, "/file_handler/") && !strings.Contains(g, "/rtcm/") {
+				continue
+			}
+			hdr := g
+			if j := strings.IndexByte(g, '\n'); j >= 0 {
+				hdr = g[:j]
+			}
+			if !strings.HasPrefix(hdr, "goroutine ") {
+				continue
+			}
+			found++
+			ok := false
+			for _, st := range []string{"chan send", "chan receive", "select", "sync.", "semacquire"} {
+				if strings.Contains(hdr, st) {
+					ok = true
+				}
+			}
+			if !ok {
+				parkedAll = false
+			}
+		}
+		if parkedAll && found > 0 {
+			hung = "HANG-DEADLOCK: " + hung + "; every application and pipeline goroutine is parked on a channel or lock"
+		} else {
+			hung = "HANG-BUSY: " + hung
+		}
+		err = fmt.Errorf("%s", hung)
+	}
 	if err != nil {
-		fail = log.String()
+		fail = hung + "\n" + log.String()
 		if len(fail) > 6000 {
 			fail = fail[:3000] + "\n...\n" + fail[len(fail)-3000:]
 		}
@@ -535,9 +618,16 @@ func monC11(c *child.Ctx, replay json.RawMessage) {
 				if cur != nil {
 					cj, _ = json.Marshal(cur)
 				}
+				if strings.HasPrefix(fail, "HANG-BUSY") {
+					c.Inconclusive(app + " in-process executor made no progress for 75 s while goroutines were runnable")
+					return
+				}
 				sig := "crash"
 				if strings.Contains(fail, "WARNING: DATA RACE") {
 					sig = "data-race"
+				}
+				if strings.HasPrefix(fail, "HANG-DEADLOCK") {
+					sig = "deadlock"
 				}
 				c.Violate(sig, app+" in-process executor died:\n"+fail, cj)
 				return
@@ -572,6 +662,13 @@ func monC11(c *child.Ctx, replay json.RawMessage) {
 			}
 			k := appCase{ID: i + 1, App: app, Input: hexs(in), Chunk: []int{1, 16, 300, 0}[r.Intn(4)], ReaderUs: []int{0, 0, 50}[r.Intn(3)],
 				WriterMode: mode, WriterUs: us, Procs: []int{1, 2, 16}[r.Intn(3)], StartMs: fixedStart.UnixMilli()}
+			if app == "rtcmfilter" {
+				// every configuration of the optional logs
+				k.Display, k.Record = i%4 >= 2, i%2 == 1
+				if k.Display && len(in) > 3000 {
+					k.Input = hexs(in[:3000])
+				}
+			}
 			if i == 3 && c.Batch == 0 || c.Thorough() && i%400 == 3 {
 				// one Write that stays blocked for seconds while the input ends
 				k.Input = hexs(gen.RandFrame(r).Bytes)
@@ -737,9 +834,16 @@ func monC10(c *child.Ctx, replay json.RawMessage) {
 				if cur != nil {
 					cj, _ = json.Marshal(cur)
 				}
+				if strings.HasPrefix(fail, "HANG-BUSY") {
+					c.Inconclusive("rtcmfilter in-process executor made no progress for 75 s while goroutines were runnable")
+					return
+				}
 				sig := "crash"
 				if strings.Contains(fail, "WARNING: DATA RACE") {
 					sig = "data-race"
+				}
+				if strings.HasPrefix(fail, "HANG-DEADLOCK") {
+					sig = "deadlock"
 				}
 				c.Violate(sig, "rtcmfilter in-process executor died:\n"+fail, cj)
 				return
